@@ -131,7 +131,29 @@ def generate(rng, tier):
     # appended after every earlier stream, so that those keep their inputs
     cases.extend(ce.entry_class_cases(rng, tier, pn, pool))
     cases.extend(cs_cases(rng, tier, seen))
+    cases.extend(vtf_cases(rng, tier))
     return cases
+
+
+# ---------------------------------------------------------------- the two transcriptions of von_token_found against each other
+# Known finding K14 is STATED in Coq against Spec/BibtexCase.von_token_found and JUDGED in this check by c13_bibtex.von_token_found.
+# Stream `vtf` runs both on the same words (op 95): the class words of c13_bibtex, the named examples and short backslash-free
+# words over letters, digits and braces (balanced or not).  Only ASCII words without an escaped brace: the Python transcription keeps
+# the property's convention that an escaped brace is no brace and takes str.isalpha() letters, the Coq one is literal bibtex.web.
+def vtf_cases(rng, tier):
+    quick = tier == "quick"
+    words = [w for _, w in cb.FIXED_WORDS] + [w for _, w in cb.class_words(rng, quick)]
+    for _ in range(500 if quick else 8000):
+        words.append("".join(rng.choice("aAzZ19{}{}{}-.'\\") for _ in range(rng.randint(0, 9))))
+    out, seen = [], set()
+    for w in words:
+        if w in seen or not w.isascii():
+            continue
+        seen.add(w)
+        if any(k == "e" and c in "{}" for c, k in cb.units(w)):
+            continue
+        out.append({"stream": "vtf", "input": {"level": "vtf", "w": w}})
+    return out
 
 
 # ---------------------------------------------------------------- control sequences at every brace level (c13_bibtex.py)
@@ -507,6 +529,12 @@ def _impl(case):
     import implutil
     from bibtexparser.middlewares.names import InvalidNameError, parse_single_name_into_parts as pn
     inp = case["input"]
+    if inp["level"] == "vtf":
+        w = inp["w"]
+        von, _, ctx = cb.von_token_found(cb.units(w))
+        return {"key": json.dumps(["vtf", w]), "tags": ["vtf", "vtf_ctx:" + ctx, "vtf_von" if von else "vtf_not_von"],
+                "sx_in": [95, enc.enc_str(w)], "sx_out": implutil.r_ok(int(bool(von))), "oracle": {"ok": True, "detail": ""},
+                "summary": "%r -> %s (%s)" % (w, "von" if von else "not von", ctx), "nontrivial": "{" in w or "\\" in w}
     if inp["level"] == "fn":
         s, strict = inp["s"], inp["strict"]
         rec = {"key": json.dumps([s, strict]), "tags": []}
